@@ -242,6 +242,15 @@ pub fn check_lax_single(f: &L, loc: &mut Local) {
         }
         loc.nontrivial();
     }
+    // lax::Hypergraph::discrete: the given nodes and nothing else
+    {
+        let d = catch(|| LHyper::<u8, u8>::discrete(f.open.nodes.clone())).and_then(|h| decode_lax_hyper(&h));
+        loc.trans(1);
+        match d {
+            Ok(p) if p.open.nodes == f.open.nodes && p.open.edges.is_empty() && p.quot.is_empty() => {}
+            other => loc.violation("lax-Hypergraph::discrete:wrong", json!({"case": case, "got": format!("{:?}", other)})),
+        }
+    }
     loc.outcome(&(a.len(), b.len(), f.quot.len()));
     loc.sample(|| case.clone());
 }
